@@ -73,6 +73,11 @@ let () =
   register "ppu.w" (fun a ->
     ppu_write (ai a 1) (n_of_int ((ai a 2) land 0xff));
     emit (Printf.sprintf "w %d %d" (ai a 1) ((ai a 2) land 0xff)));
+  (* register writes request nothing in the model: ppu_write returns no request mask *)
+  register "ppu.wi" (fun a ->
+    ppu_write (ai a 1) (n_of_int ((ai a 2) land 0xff));
+    emit (Printf.sprintf "w %d %d" (ai a 1) ((ai a 2) land 0xff));
+    emit "I 0");
   register "ppu.r" (fun a -> emit (string_of_int (ni (ppu_read (ai a 1)))));
   register "ppu.st" (fun _ ->
     let s = !p and m = !o in
